@@ -25,25 +25,25 @@ theorem flatten_take_succ (lines : List (List Nat)) (j : Nat) (l : List Nat)
 /-! ### the invariant -/
 
 /-- the statement of `crash_prefix` for an arbitrary state -/
-def Good (lines : List (List Nat)) (s : FS) : Prop :=
+def CrashGood (lines : List (List Nat)) (s : FS) : Prop :=
   ∃ a frag, s.disk = (lines.take a).flatten ++ frag ∧ s.acked ≤ a ∧ a ≤ lines.length
     ∧ (frag = [] ∨ ∃ l, lines[a]? = some l ∧ ProperPrefix frag l)
 
 /-- between two logging calls: `j` lines on disk, nothing buffered, `j` acknowledged -/
-def Idle (lines : List (List Nat)) (j : Nat) (s : FS) : Prop :=
+def CrashIdle (lines : List (List Nat)) (j : Nat) (s : FS) : Prop :=
   s.buf = [] ∧ s.disk = (lines.take j).flatten ∧ s.acked = j ∧ j ≤ lines.length
 
 /-- inside the logging call for line `l` (number `j`): `n` bytes of it have reached the disk -/
-def Mid (lines : List (List Nat)) (j : Nat) (l : List Nat) (n : Nat) (s : FS) : Prop :=
+def CrashMid (lines : List (List Nat)) (j : Nat) (l : List Nat) (n : Nat) (s : FS) : Prop :=
   s.disk = (lines.take j).flatten ++ l.take n ∧ s.buf = l.drop n ∧ s.acked = j
 
-theorem idle_good {lines : List (List Nat)} {j : Nat} {s : FS} (h : Idle lines j s) :
-    Good lines s := by
+theorem idle_good {lines : List (List Nat)} {j : Nat} {s : FS} (h : CrashIdle lines j s) :
+    CrashGood lines s := by
   obtain ⟨_, hd, ha, hj⟩ := h
   exact ⟨j, [], by simp [hd], by omega, hj, Or.inl rfl⟩
 
 theorem mid_good {lines : List (List Nat)} {j : Nat} {l : List Nat} {n : Nat} {s : FS}
-    (hl : lines[j]? = some l) (h : Mid lines j l n s) : Good lines s := by
+    (hl : lines[j]? = some l) (h : CrashMid lines j l n s) : CrashGood lines s := by
   obtain ⟨hd, _, ha⟩ := h
   have hj : j < lines.length := by
     obtain ⟨hlt, _⟩ := List.getElem?_eq_some_iff.mp hl
@@ -59,8 +59,8 @@ theorem mid_good {lines : List (List Nat)} {j : Nat} {l : List Nat} {n : Nat} {s
     simp
 
 theorem mid_spills (lines : List (List Nat)) (j : Nat) (l : List Nat) :
-    ∀ (cs : List Nat) (n : Nat) (s : FS), Mid lines j l n s →
-      ∃ n', Mid lines j l n' (runSteps s (cs.map Step.spill)) := by
+    ∀ (cs : List Nat) (n : Nat) (s : FS), CrashMid lines j l n s →
+      ∃ n', CrashMid lines j l n' (runSteps s (cs.map Step.spill)) := by
   intro cs
   induction cs with
   | nil => intro n s h; exact ⟨n, h⟩
@@ -76,8 +76,8 @@ theorem mid_spills (lines : List (List Nat)) (j : Nat) (l : List Nat) :
 
 /-- the tail `flush(); return` of a logging call, cut anywhere -/
 theorem mid_tail_good {lines : List (List Nat)} {j : Nat} {l : List Nat} {n : Nat} {s : FS}
-    (hl : lines[j]? = some l) (h : Mid lines j l n s) (m : Nat) :
-    Good lines (runSteps s ([Step.spillAll, Step.ack].take m)) := by
+    (hl : lines[j]? = some l) (h : CrashMid lines j l n s) (m : Nat) :
+    CrashGood lines (runSteps s ([Step.spillAll, Step.ack].take m)) := by
   have hj : j < lines.length := by
     obtain ⟨hlt, _⟩ := List.getElem?_eq_some_iff.mp hl
     exact hlt
@@ -96,14 +96,14 @@ theorem mid_tail_good {lines : List (List Nat)} {j : Nat} {l : List Nat} {n : Na
     · simp [runSteps, Step.run, ha]
 
 theorem append_mid {lines : List (List Nat)} {j : Nat} {s : FS} (l : List Nat)
-    (h : Idle lines j s) : Mid lines j l 0 (Step.run s (.append l)) := by
+    (h : CrashIdle lines j s) : CrashMid lines j l 0 (Step.run s (.append l)) := by
   obtain ⟨hb, hd, ha, _⟩ := h
   refine ⟨?_, ?_, ?_⟩ <;> simp [Step.run, hb, hd, ha]
 
 /-- (1) cutting a logging call anywhere leaves a good disk -/
 theorem call_prefix_good {lines : List (List Nat)} {j : Nat} {l : List Nat} {s : FS}
-    (hl : lines[j]? = some l) (h : Idle lines j s) (cs : List Nat) (k : Nat) :
-    Good lines (runSteps s ((callSteps l cs).take k)) := by
+    (hl : lines[j]? = some l) (h : CrashIdle lines j s) (cs : List Nat) (k : Nat) :
+    CrashGood lines (runSteps s ((callSteps l cs).take k)) := by
   cases k with
   | zero => simpa [runSteps] using idle_good h
   | succ k =>
@@ -114,8 +114,8 @@ theorem call_prefix_good {lines : List (List Nat)} {j : Nat} {l : List Nat} {s :
 
 /-- (2) a complete logging call leads from idle to idle -/
 theorem call_full_idle {lines : List (List Nat)} {j : Nat} {l : List Nat} {s : FS}
-    (hl : lines[j]? = some l) (h : Idle lines j s) (cs : List Nat) :
-    Idle lines (j + 1) (runSteps s (callSteps l cs)) := by
+    (hl : lines[j]? = some l) (h : CrashIdle lines j s) (cs : List Nat) :
+    CrashIdle lines (j + 1) (runSteps s (callSteps l cs)) := by
   have hj : j < lines.length := by
     obtain ⟨hlt, _⟩ := List.getElem?_eq_some_iff.mp hl
     exact hlt
@@ -133,8 +133,8 @@ theorem call_full_idle {lines : List (List Nat)} {j : Nat} {l : List Nat} {s : F
 /-- (3) the whole run, cut anywhere, generalised over the start -/
 theorem logAll_prefix_good (lines : List (List Nat)) :
     ∀ (suf pre : List (List Nat)) (css : List (List Nat)) (s : FS) (k : Nat),
-      lines = pre ++ suf → Idle lines pre.length s →
-      Good lines (runSteps s ((logAll suf css).take k)) := by
+      lines = pre ++ suf → CrashIdle lines pre.length s →
+      CrashGood lines (runSteps s ((logAll suf css).take k)) := by
   intro suf
   induction suf with
   | nil =>
@@ -160,7 +160,7 @@ theorem crash_prefix (lines css : List (List Nat)) (k : Nat) :
     ∃ a frag, (crash k (logAll lines css)).disk = (lines.take a).flatten ++ frag
       ∧ (crash k (logAll lines css)).acked ≤ a ∧ a ≤ lines.length
       ∧ (frag = [] ∨ ∃ l, lines[a]? = some l ∧ ProperPrefix frag l) := by
-  have := logAll_prefix_good lines lines [] css {} k (by simp) (by simp [Idle])
+  have := logAll_prefix_good lines lines [] css {} k (by simp) (by simp [CrashIdle])
   exact this
 
 /-! ### acknowledgements -/
